@@ -232,7 +232,7 @@ def run_property(prop, tier, jobs, kinds, text, bounds, outside=(), extra_assump
             if r["name"].startswith("ExtendTransitions") or r["name"].startswith("calendar"):
                 # the model is over uninterpreted calendar / rule functions: confirm on a panel of concrete footers loaded natively
                 w = None; key = None; case = {"footer_panel": True}
-                if r["name"].startswith("ExtendTransitions:AllYearDST"):
+                if r["name"].startswith("ExtendTransitions:AllYearDST") or fobj["desc"].startswith("ExtendTransitions without expansion") or fobj["desc"].startswith("extended_ stays false"):
                     w = tz_replay.check_allyear_panel(); case = {"allyear_panel": True}
                 elif r["name"].startswith("ExtendTransitions"):
                     if fobj["desc"].startswith("seam: no rule instant"):
